@@ -198,7 +198,7 @@ reg(PropertySpec(
 
 reg(PropertySpec(
     "C15", "Array-namespace and dtype conversions preserve values and precision",
-    functions=["utils:resolve_dtype", "utils:convert_dtype", "samples:BaseSamples.to_namespace", "samples:Samples.to_namespace", "samples:BaseSamples.to_numpy", "samples:Samples.to_numpy",
+    functions=["utils:resolve_dtype", "utils:convert_dtype", "samples:BaseSamples.array_to_namespace", "samples:BaseSamples.to_namespace", "samples:Samples.to_namespace", "samples:BaseSamples.to_numpy", "samples:Samples.to_numpy",
                "samples:SMCSamples.to_numpy", "samples:BaseSamples.from_samples", "samples:SMCSamples.resample", "samples:SMCSamples.to_standard_samples", "samples:BaseSamples.__getitem__",
                "samples:Samples.__getitem__", "samples:SMCSamples.__getitem__", "samples:BaseSamples.concatenate", "samplers.importance:ImportanceSampler.sample",
                "samplers.smc.minipcn:MiniPCNSMC.mutate", "samplers.smc.emcee:EmceeSMC.mutate", f"{SMC}:SMCSampler.restore_from_checkpoint", "aspire:Aspire.sample_posterior"],
@@ -210,7 +210,7 @@ reg(PropertySpec(
 
 reg(PropertySpec(
     "C13", "Saved samples, histories, transforms, flows and configuration reload unchanged",
-    functions=["utils:recursively_save_to_h5_file", "utils:resolve_xp", "samples:BaseSamples.from_dict", "utils:resolve_dtype", "utils:convert_dtype"],
+    functions=["utils:recursively_save_to_h5_file", "utils:resolve_xp", "samples:BaseSamples.from_dict", "utils:resolve_dtype", "utils:convert_dtype", "flows.torch.flows:BaseTorchFlow.save", "flows.jax.flows:FlowJax.save"],
     native=_lazy("checks.native_misc", "native_C13"),
     extra_static=_lazy1("checks.static_facts", "c13_bindings"),
     technique="contract-based deductive verification: the real recursively_save_to_h5_file / encode_for_hdf5 and load_from_h5_file / decode_from_hdf5 are executed symbolically against an h5py group model (alphabetical iteration, string storage) for dictionary shapes covering None, {}, nested dicts to depth 3, string lists, scalars, arrays; the real to_dict -> from_dict for three classes x layouts incl. the alphabetical re-ordering an HDF5 load performs (columns tracked individually); resolve_xp on every saved namespace name; constructor binding of the saved configuration from the ast (z3 + ast); bounded native save/load grid on real HDF5 files",
